@@ -6,9 +6,10 @@ import json
 import os
 import shutil
 
-for d in sorted(glob.glob("/tmp/seed-C*/out/[0-9]")):
-    p = d.split("/")[2][5:]
-    n = os.path.basename(d)
+for d in sorted(glob.glob("/tmp/seed-C*/out/[0-9]") + glob.glob("/tmp/seed3-C*/out/[0-9]")):
+    w3 = d.startswith("/tmp/seed3-")
+    p = d.split("/")[2].split("-")[1]
+    n = ("w3-" if w3 else "") + os.path.basename(d)
     res = "/tmp/seedres/%s-%s.json" % (p, n)
     if not os.path.exists(res):
         continue
